@@ -1,4 +1,4 @@
-import RsslVerif.Lemmas.ConstEvalExpr
+import RsslVerif.Lemmas.ConstEvalNoPanic
 /-!
 # C13 — compile-time constant evaluation matches run-time semantics
 
@@ -29,12 +29,55 @@ example : eval (.op .LeftShift (.cons (.op .Subtract (.cons (.lit (.uint32 0)) (
 example : wfE (.op .LeftShift (.cons (.op .Subtract (.cons (.lit (.uint32 0)) (.cons (.lit (.uint32 1)) .nil)))
             (.cons (.cast (.scalar .UInt32) (.lit (.intLit 33))) .nil))) = true := by decide
 
+/-- **No panic.**  Evaluation of a well-formed expression whose operator nodes have admissible operand kinds
+    (`kindsOk`: enum operands are not mixed with operands of another type, `~` is applied to an integer —
+    what the type checker guarantees) never hits a `panic!`, `assert!`, `unreachable!`, slice index or
+    arithmetic overflow check of the modelled functions: not on overflow, not on out-of-range shifts, not on
+    `INT_MIN / -1`.  The proof uses the generated table only through `tableSafe_ok` / `castTableSafe_ok`. -/
+theorem consteval_no_panic (e : Expr) (hwf : wfE e = true) (hk : kindsOk e = true) (msg : String) :
+    eval e ≠ .error (.panic msg) :=
+  eval_noPanic e hwf hk msg
+
+/-- tie to the source: every arm of the regenerated operator and cast tables that non-enum operands can
+    reach computes with `wrapping_*`, `checked_*`→`Err`, zero-guarded or overflow-free operations -/
+theorem tables_panic_free : tableSafe = true ∧ castTableSafe = true := ⟨tableSafe_ok, castTableSafe_ok⟩
+
+/-- non-vacuity: `INT_MIN / -1`, `0u - 1u`, `1 << 32` and `-INT_MIN` satisfy the hypotheses ... -/
+example : wfE (.op .Divide (.cons (.lit (.int32 (-2147483648))) (.cons (.lit (.int32 (-1))) .nil))) = true
+    ∧ kindsOk (.op .Divide (.cons (.lit (.int32 (-2147483648))) (.cons (.lit (.int32 (-1))) .nil))) = true
+    ∧ eval (.op .Divide (.cons (.lit (.int32 (-2147483648))) (.cons (.lit (.int32 (-1))) .nil)))
+        = .ok (.int32 (-2147483648)) := by decide
+
+/-- ... and the operand-kind hypothesis is needed: `~true` reaches the `panic!` of the `BitwiseNot` arm -/
+example : eval (.op .BitwiseNot (.cons (.lit (.bool true)) .nil)) = .error (.panic "unexpected type in BitwiseNot") := by
+  decide
+
 /-- Division or modulus by a zero constant is reported as *not constant*: whatever the dividend (any
     kind, any value), `evaluate_operator` returns `Err(())` — no value and no panic. -/
 theorem div_mod_zero_not_constant (o : Op) (ho : o = .Divide ∨ o = .Modulus) (a b : Constant)
     (hz : b = .intLit 0 ∨ b = .int32 0 ∨ b = .uint32 0) :
     applyOp o [a, b] = .error .notConst := by
   rcases ho with rfl | rfl <;> rcases hz with rfl | rfl | rfl <;> cases a <;> simp [c13]
+
+/-- ... and so is every expression `x / z`, `x % z` whose right operand evaluates to an integer zero (also
+    a zero of an enum type): it never evaluates to a value. -/
+theorem div_mod_zero_not_constant_expr (o : Op) (ho : o = .Divide ∨ o = .Modulus) (ea eb : Expr) (b : Constant)
+    (hb : eval eb = .ok b)
+    (hz : S.strip b = .intLit 0 ∨ S.strip b = .int32 0 ∨ S.strip b = .uint32 0) (r : Constant) :
+    eval (.op o (.cons ea (.cons eb .nil))) ≠ .ok r := by
+  intro h
+  simp only [eval] at h
+  cases ha : evalArgs (.cons ea (.cons eb .nil)) ⟨[], none⟩ with
+  | error err => simp [ha] at h
+  | ok acc =>
+    simp only [ha] at h
+    obtain ⟨hvals, hlen⟩ := evalArgs_prefix _ _ _ ha
+    cases hea : eval ea with
+    | error err => simp [prefixVals, hea, argsLen] at hlen
+    | ok a =>
+      simp [prefixVals, hea, hb] at hvals
+      unfold finishOp at h
+      simp [hvals, div_mod_zero_not_constant o ho (S.strip a) (S.strip b) hz] at h
 
 /-- **Literal arithmetic is exact or not constant, never wrong**: if `+ - * / % << >>` on two untyped
     literals returns a value, that value is the exact mathematical result (quotient truncated toward zero,
